@@ -1,7 +1,8 @@
 """
 C10 — Rounding-lowering rewrites leave the rounding function unchanged.
 
-`quantize` programs (`with C: y = fp.round(x)`; + cast / returned-round forms; C spelled as constructor text
+`quantize` programs (`with C: y = fp.round(x)`; + cast / returned-round forms, and a guarded form with the same rounding in
+both arms of an and/or/not class test on the operand; C spelled as constructor text
 or captured constant; argument optionally pinned by monomorphize) are generated as source text for small
 contexts of every family, loaded through the real decorator, rewritten by each lowering strategy alone and by
 every prefix of the documented chain, and evaluated on the boundary operands of C.
@@ -74,7 +75,7 @@ ASSUMPTIONS = [
 ]
 EXHAUSTIVE = {'quick': False, 'thorough': False}
 FLOORS = {'near:emin': 0.05, 'near:maxval': 0.1, 'near:infval': 0.1, 'near:ovthr': 0.1, 'near:clamptop': 0.05, 'near:halfsub': 0.08,
-          'near:zero': 0.05, 'special': 0.02, 'zero': 0.015, 'nondyadic': 0.02, 'rewritten': 0.5, 'cast-rewritten': 100,
+          'near:zero': 0.05, 'special': 0.02, 'zero': 0.015, 'nondyadic': 0.02, 'rewritten': 0.5, 'cast-rewritten': 100, 'guarded-rewritten': 500,
           'chain:complete': 500, 'chain:forwarded-cursor': 100, 'arith:acted': 100, 'arith:declined': 100, 'arith:special-operand': 200,
           'applied:unfold_special': 1000, 'applied:unfold_neg_zero': 300, 'applied:unfold_overflow': 500,
           'applied:unfold_overflow(early_check)': 500, 'applied:float_to_fixed': 500, 'applied:rescale_fixed': 500,
@@ -602,6 +603,17 @@ def run_context(res: Result, spec, tier, seed):
                 g = transform(res, P2, P2.fn, step, where, [])
                 if g is not None:
                     check_rewritten(res, P2, m, g, [step], where, ops_small, info, None, car_of)
+
+        # ---- guarded form: the same rounding in both arms of an and/or/not class test on the operand
+        Pg = Program(spec, ctx, f'guard:{rng.randrange(len(G.GUARDS))}', spells[rng.randrange(len(spells))], ann=True)
+        progs.append(Pg)
+        res.count('programs')
+        for step in ('us', 'uo' if rng.random() < 0.5 else 'uoe', 'f2f' if family(kind) == 'float' else 'unz'):
+            where = ('none', 'none', 'idx', 'cursor')[rng.randrange(4)]
+            g = transform(res, Pg, Pg.fn, step, where, [])
+            if g is not None:
+                res.cls('guarded-rewritten')
+                check_rewritten(res, Pg, m, g, [step], where, ops_small, info, None, car_of)
 
         # ---- cast form: unfold_special / rescale_fixed take casts; operands = members + specials
         if rng.random() < 0.5:
